@@ -199,8 +199,8 @@ struct World {
       if (!u) s += "-";
       else if (!live.count(u)) s += "DANGLING";      // not dereferenced here
       else s += vh::str(u->UniverseId());
-      s += "/" + vh::str(static_cast<int>(p->GetPriority())) + "/" +
-           (p->GetPriorityMode() == ola::PRIORITY_MODE_INHERIT ? "i" : "s");
+      // the property bounds the priority (0..200); its exact value and mode are in the p<k> key
+      if (p->GetPriority() > ola::dmx::SOURCE_PRIORITY_MAX) s += "!prio>max";
     }
     s += "~U:";
     // m_universe_map is keyed by number, GetList is in key order; sort anyway
@@ -232,6 +232,19 @@ struct World {
       }
       s += "[" + join(a, ".") + "|" + join(b, ".") + "|" + join(sc, ".") + "|" + join(kc, ".") + "]";
       s += u->IsActive() ? "a" : "n";
+    }
+    return s;
+  }
+
+  // priority value / mode of every port (correspondence detail, not property-determined)
+  string prio_s() {
+    string s;
+    for (size_t i = 0; i < ports.size(); i++) {
+      if (i) s += ",";
+      ola::Port *p = ports[i].port();
+      if (!p) { s += "X"; continue; }
+      s += vh::str(static_cast<int>(p->GetPriority())) + "/" +
+           (p->GetPriorityMode() == ola::PRIORITY_MODE_INHERIT ? "i" : "s");
     }
     return s;
   }
@@ -325,6 +338,8 @@ string handle(const string &payload) {
       r.dev = vh::num(a[0]);
       r.input = a[1] == "i";
       unsigned int cap = vh::num(a[2]);
+      // BasicInputPort is CAPABILITY_STATIC or FULL, BasicOutputPort CAPABILITY_NONE or FULL
+      if ((r.input && cap == 0) || (!r.input && cap == 1)) return "bad-config=capability";
       Veto v;
       if (a[3] != "-") {
         vector<string> vs = vh::split(a[3], '.');
@@ -368,7 +383,7 @@ string handle(const string &payload) {
         w.port_prefs()->SetValue(w.port_ids[i] + suffix[j], preload[i][j]);
   }
   w.dm = new ola::DeviceManager(&w.prefs_factory, &w.pm);
-  string out = "d=" + w.dump();
+  string out = "d=" + w.dump() + ";p=" + w.prio_s();
   vector<string> ops;
   if (f[2] != "-") ops = vh::split(f[2], ',');
   for (size_t k = 0; k < ops.size(); k++) {
@@ -452,7 +467,7 @@ string handle(const string &payload) {
     }
     out += ";r" + vh::str(k) + "=" + r + ";d" + vh::str(k) + "=" + w.dump() +
            ";c" + vh::str(k) + "=" + w.cands() + ";b" + vh::str(k) + "=" + w.broker_s() +
-           ";f" + vh::str(k) + "=" + w.prefs_s();
+           ";f" + vh::str(k) + "=" + w.prefs_s() + ";p" + vh::str(k) + "=" + w.prio_s();
   }
   return out;
 }
